@@ -1,0 +1,18 @@
+//go:build verif
+
+package grpctunnel
+
+// Exports of package internals for the verification harness under /verif.
+// This file is only compiled with the "verif" build tag; it adds wrappers and
+// changes no existing code.
+
+import (
+	"time"
+
+	"google.golang.org/grpc/metadata"
+)
+
+// VerifTimeoutFromHeaders exposes timeoutFromHeaders.
+func VerifTimeoutFromHeaders(headers metadata.MD) (time.Duration, bool) {
+	return timeoutFromHeaders(headers)
+}
